@@ -162,8 +162,11 @@ def run_with_fault(make, method, inj: Injector, compile_fault=None, hess_fault=N
            "counts": dict(inj.counts)}
     with warnings.catch_warnings():
         warnings.simplefilter("ignore")
-        nxt = P.solve(method=method)
-    obs["next"] = (nxt.status.value, nxt.objective_value, sorted(nxt.values.items()))
+        try:
+            nxt = P.solve(method=method)
+            obs["next"] = (nxt.status.value, nxt.objective_value, sorted(nxt.values.items()))
+        except BaseException as ex:            # the next solve of the same Problem must behave as if nothing had happened
+            obs["next"] = ("raised " + type(ex).__name__ + ": " + str(ex)[:80], None, [])
     obs["hook_after_next"] = warnings.showwarning is hook0
     return obs
 
@@ -233,6 +236,45 @@ def run(rep: vk.Report):
                 cases.add(term, {"problem": pname, "method": method, "fault": [what, kind, k, ename], "outcome": obs["outcome"],
                                  "flags_after": fa, "hook_restored": obs["hook_restored"]},
                           kinds={pname, what, str(kind), ename, f"k{k}"})
+    # ---- the hook that must be back afterwards is the one in place when THIS solve started, not the one some earlier solve of the same
+    # Problem saw: solve under hook A, the application installs hook B (logging.captureWarnings does exactly that), then a solve that fails,
+    # is interrupted, or simply succeeds
+    hook_hist = 0
+    import optyx.solvers.scipy_solver as SS_
+    for pname, make, method in problems():
+        for ename, ecls in list(EXC.items()) + [("none", None)]:
+            P = make()
+            orig_hook = warnings.showwarning
+            hookA = lambda *a, **k: None
+            hookB = lambda *a, **k: None
+            real_min = SS_.minimize
+            try:
+                warnings.showwarning = hookA
+                with warnings.catch_warnings():
+                    warnings.simplefilter("ignore")
+                    warnings.showwarning = hookA
+                    P.solve(method=method)
+                    warnings.showwarning = hookB
+                    if ecls is not None:
+                        def boom(*a, _e=ecls, **k):
+                            raise _e("injected at solver entry")
+                        SS_.minimize = boom
+                    try:
+                        P.solve(method=method)
+                        outc = "returned"
+                    except BaseException as ex:
+                        outc = "raised " + type(ex).__name__
+                    after = warnings.showwarning
+            finally:
+                SS_.minimize = real_min
+                warnings.showwarning = orig_hook
+            hook_hist += 1
+            injections += 1
+            if after is not hookB:
+                rep.violation({"kind": "global-state", "obligation": "after a solve warnings.showwarning is the hook that was installed when that solve started",
+                               "witness": {"problem": pname, "method": method, "history": "solve under hook A; install hook B; solve (" + (ename if ecls else "no fault") + ")",
+                                           "outcome": outc, "hook_after": "A (stale)" if after is hookA else "B" if after is hookB else "the solver's private handler or another object"}},
+                              concrete=True)
     fails = cases.run(shard=300)
     for i in fails:
         m = cases.meta[i]
@@ -312,6 +354,7 @@ def run(rep: vk.Report):
                    "build, x 4 exception classes; plus LP extraction / linprog faults and the recursion-limit bracket; distinct = "
                    "distinct (problem, fault point, index, class)")
     cov["samples"] = [dict(m) for m in cases.meta[:3]]
+    cov["hook_switch_histories"] = hook_hist
     cov["injections"] = injections
     cov["outcome_histogram"] = {}
     for m in cases.meta:
